@@ -607,7 +607,7 @@ class Sun(object):
         alpha = alpha.to_positive()
         # Now we need the nutation in longitude
         deltapsi = nutation_longitude(epoch)
-        e = l0() - 0.0057183 - alpha + deltapsi * cos(epsilon.rad())
+        e = l0() - 0.0057183 - alpha() + deltapsi() * cos(epsilon.rad())
         # The following line is a fix devised by janbredenbeek to a problem
         # that arises in cases where alpha was just past the spring equinox
         # but l0 was still < 360. In those cases e was incorrectly calculated
@@ -615,8 +615,8 @@ class Sun(object):
         e = e - 360.0 * round(e / 360.0)
         e *= 4.0
         # Extract seconds
-        s = (abs(e()) % 1) * 60.0
-        m = int(e())
+        s = (abs(e) % 1) * 60.0
+        m = int(e)
         return m, s
 
     @staticmethod
